@@ -69,6 +69,12 @@ def c17(tier: str) -> int:
         words = rng.sample(POOL, rng.randint(3, 14))
         cases.append({'id': k + 1, 'words': words,
                       'queries': queries_for(words, rng, 200 if thorough else 45)})
+        if k % 3 == 2:
+            # every third lexicon: some further forms come from an extension of the lexicon
+            r2 = random.Random(seed() * 1000 + k)
+            cases[-1]['xforms'] = [[j, [f for f in w_[2] if r2.random() < 0.6]]
+                                   for j, w_ in enumerate(words) if w_[2] and r2.random() < 0.6]
+            cases[-1]['xforms'] = [x for x in cases[-1]['xforms'] if x[1]]
     cases.append({'id': n + 1, 'words': POOL, 'queries': queries_for(POOL, rng, 10000 if thorough else 250)})
     per = max(1, len(cases) // (NCPU * 2))
     jobs = [{'cases': cases[k:k + per]} for k in range(0, len(cases), per)]
